@@ -4,6 +4,7 @@
                                                        index (op0*5+op1) in [first_lo, first_hi)  (0..25; length-1
                                                        sequences are run by the process that owns index 0)
           h_prioq rand <nops> <seed> <maxsize> <nkeys>
+          h_prioq seq <hex>                                   replay of one enumerated sequence
    Checked after every operation:
      prioq_min  returns 0 iff the model is empty, else an element (dt,id) that is in the model and whose dt is the
                 minimum of the model;
@@ -196,6 +197,10 @@ int main(int argc, char **argv)
     if (lo == 0) { for (f = 0; f < 5; f++) { ops[0] = (unsigned char) f; run_seq(ops, 1); } }
     if (maxlen >= 2)
       for (f = lo; f < hi && f < 25; f++) { ops[0] = (unsigned char) (f / 5); ops[1] = (unsigned char) (f % 5); enum_rec(ops, 2, maxlen); }
+  } else if (argc >= 3 && !strcmp(argv[1], "seq")) {          /* replay: one sequence, hex digits pairs (00-03 insert key, 04 delmin) */
+    unsigned char ops[64]; int n = 0; const char *h = argv[2];
+    while (h[0] && h[1] && n < 64) { unsigned v; sscanf(h, "%2x", &v); ops[n++] = (unsigned char) (v > 4 ? 4 : v); h += 2; }
+    run_seq(ops, n);
   } else if (argc >= 6 && !strcmp(argv[1], "rand")) {
     long long nops = atoll(argv[2]), k; long maxsize = atol(argv[4]); long nkeys = atol(argv[5]);
     static const long ext[] = { LONG_MIN, LONG_MIN + 1, -1, 0, 1, 2147483647L, 2147483648L, 4294967295L, 4294967296L, LONG_MAX - 1, LONG_MAX };
